@@ -125,15 +125,18 @@ def check_no_dropping_adapters(ctx, rule, P, fn_keys, allow=None, include_closur
     return n
 
 
-def loops_push_every_iteration(fn):
-    """For every loop in fn: is there a `push`/`add_assign`-like accumulation call that lies on
-    every path round the loop?  Returns [(header, ok, detail)]."""
+def loops_push_every_iteration(fn, accept=None):
+    """For every loop in fn: is there a `push`/`add_assign`-like accumulation call (or, with `accept`, a call
+    site satisfying accept(site)) that lies on every path round the loop?  Returns [(header, ok, detail)]."""
     cfg = fn.cfg
     ev = evaluate(fn)
     out = []
     for src, h in cfg.back_edges():
         body = cfg.natural_loop(src, h)
-        acc = [b for b in body if b in ev.sites and ev.sites[b].callee[0] in ("Vec::<T, A>::push", "AddAssign::add_assign", "Extend::extend", "Vec::<T, A>::extend_from_slice")]
+        if accept is not None:
+            acc = [b for b in body if b in ev.sites and accept(ev.sites[b])]
+        else:
+            acc = [b for b in body if b in ev.sites and ev.sites[b].callee[0] in ("Vec::<T, A>::push", "AddAssign::add_assign", "Extend::extend", "Vec::<T, A>::extend_from_slice")]
         # accumulation must dominate the back-edge source (every continuing iteration accumulates)
         ok = any(cfg.dominates(b, src) for b in acc)
         out.append((h, ok, "accumulating calls at %s; back edge from bb%d" % (acc, src)))
